@@ -74,9 +74,18 @@ def rlabel(rng, width=256):
     else:
         n = rng.randint(1, min(12, maxlen))
     pool = CP1252_CHARS if rng.random() < 0.4 else ASCII
-    return "".join(rng.choice(pool) for _ in range(n))
+    s = "".join(rng.choice(pool) for _ in range(n))
+    if n >= 2 and rng.random() < 0.08:
+        # Windows-1252 text whose bytes happen to be well-formed UTF-8 multi-byte sequences (what mis-decoded UTF-8
+        # looks like): a reader that sniffs encodings would take it for something else
+        m = rng.choice(MOJIBAKE)
+        if len(m) <= n:
+            at = rng.randint(0, n - len(m))
+            s = s[:at] + m + s[at + len(m):]
+    return s
 
 
+MOJIBAKE = ["Ã©", "â‚¬", "Ã¼", "Â°", "ðŸ˜€", "Ã\xa0"]
 MASK_KINDS = ["all", "none", "prefix_gap", "suffix_gap", "both_ends", "alternating", "random",
               "single_present", "single_gap", "blocks"]
 
